@@ -212,7 +212,7 @@ func TestC05(t *testing.T) {
 			t.Fatalf("replay: %v", err)
 		}
 		if r.K > 0 {
-			if err := c.checkRecovery(r.K, rec); err != nil {
+			if err := c.checkRecoveryVariant(r.K, r.Variant, rec); err != nil {
 				t.Fatalf("replay crash point %d: %v", r.K, err)
 			}
 		}
@@ -277,6 +277,11 @@ func TestC05(t *testing.T) {
 				t.Fatalf("%s\nhistory: %s", msg, histJSON(h))
 			}
 		}
+		if k, v, err := c.powerLossAtSyncs(rec, func(k int) string { return fmt.Sprint(hkey, "/pl/", k) }, cls); err != nil {
+			msg := fmt.Sprintf("crash point %d of %d (directly before %q), %s: %v", k, len(cr.Events), evDesc(cr, k), v.Desc, err)
+			cr.saveReplay("C05", k, v, msg)
+			t.Fatalf("%s\nhistory: %s", msg, histJSON(h))
+		}
 		rec.Sample(map[string]interface{}{"history": h, "events": len(cr.Events), "rotations": rot, "checkpoints": ckpt, "tgs_with_several_requests": multi})
 		rec.Flush()
 	})
@@ -286,9 +291,55 @@ func TestC05(t *testing.T) {
 // checkRecovery is P6 at crash point k: acknowledged requests are recovered, and the
 // witness slot shows a transaction at least as late (in commit order) as every
 // acknowledged one.
-func (c *c05Trace) checkRecovery(k int, rec *hx.Rec) error {
+func (c *c05Trace) checkRecovery(k int, rec *hx.Rec) error { return c.checkRecoveryVariant(k, nil, rec) }
+
+// powerLossAtSyncs is P6 under the power-loss model at the protocol's own synchronisation points:
+// directly before every global sync() (the checkpoint window: PREPARING written, primary data
+// still in the page cache) the unsynced primary-file writes are dropped, once keeping and once
+// dropping the unsynced WAL records.
+func (c *c05Trace) powerLossAtSyncs(rec *hx.Rec, nt func(k int) string, cls []string) (int, *crashfs.Variant, error) {
 	cr := c.cr
-	a, _, _ := cr.materializeAndRestart(k, nil, cr.H.Buckets, nil, false)
+	for _, s := range c.syncs {
+		pend := crashfs.Pending(cr.Events, s)
+		var prim []int
+		for _, i := range pend {
+			if strings.HasSuffix(cr.Events[i].Path, ".bin") && cr.Events[i].Off >= 37024 {
+				prim = append(prim, i)
+			}
+		}
+		if len(prim) == 0 {
+			continue
+		}
+		mk := func(desc string, drop []int) *crashfs.Variant {
+			v := &crashfs.Variant{Drop: map[int]bool{}, Desc: desc}
+			for _, i := range drop {
+				v.Drop[i] = true
+			}
+			return v
+		}
+		vs := []*crashfs.Variant{mk("power loss before sync(): unsynced primary-file data lost, WAL records kept", prim)}
+		if len(prim) < len(pend) {
+			all := []int{}
+			for _, i := range pend {
+				if !(strings.HasSuffix(cr.Events[i].Path, ".bin") && cr.Events[i].Off < 37024) && !strings.HasSuffix(cr.Events[i].Path, "category_name") {
+					all = append(all, i)
+				}
+			}
+			vs = append(vs, mk("power loss before sync(): every unsynced data write lost", all))
+		}
+		for _, v := range vs {
+			rec.Case(nt(s)+v.Desc, append(cls, "power-loss-at-sync")...)
+			if err := c.checkRecoveryVariant(s, v, rec); err != nil {
+				return s, v, err
+			}
+		}
+	}
+	return 0, nil, nil
+}
+
+func (c *c05Trace) checkRecoveryVariant(k int, v *crashfs.Variant, rec *hx.Rec) error {
+	cr := c.cr
+	a, _, _ := cr.materializeAndRestart(k, v, cr.H.Buckets, nil, false)
 	if !a.OK {
 		// the KF-03a window also exists in bg mode: data rewrite and index update are two calls
 		if cr.kf03aPoint(k) && hx.KFOpen("KF-03a") && strings.Contains(a.Stderr, "unable to replay") {
